@@ -29,7 +29,7 @@ def extra_builds(tier):
 
     def chk(fname, i):
         # checked-arithmetic build: every lifecycle history of the tree shards
-        return fname == "shard_tree"
+        return fname in ("shard_tree", "shard_input_str")
     return [("relchk", chk), ("avx", vec), ("native", vec)]
 
 
@@ -221,8 +221,18 @@ def _mk(ck):
 
 
 def shards(tier):
+    from props import c05
     n = len(specs(tier))
-    return [("shard_tree", i) for i in range(n)] + [("shard_graph", i) for i in range(n)] + [("shard_input_str", None)]
+    sh = [("shard_tree", i) for i in range(n)] + [("shard_graph", i) for i in range(n)] + [("shard_input_str", None)]
+    # the value a Poly1305 object returns depends on rare accumulator states that no history alphabet reaches: C05's steering,
+    # corner and crafted inputs run here as a component (first result of a fresh object)
+    sh += [("shard_poly_component", ("shard_limbs", i)) for i in range(c05.NLIMB)] + [("shard_poly_component", ("shard_crafted", None))]
+    return sh
+
+
+def shard_poly_component(arg, tier):
+    from mc import multi
+    return multi.run_component("c05", arg[0], arg[1], tier, PROPERTY_ID)
 
 
 def shard_input_str(_, tier):
